@@ -22,20 +22,29 @@ def demo_cmd():
     raise SystemExit("unknown demo kind " + d)
 cmd, copy = demo_cmd()
 sh("git checkout -- . && git clean -fdq -e OUT -e target", wt)
-meta = {"id": sid, "property": prop, "source": "sub-agent given only the property text and a scratch worktree", "demo_cmd": cmd}
+meta = {"id": sid, "property": prop, "source": "sub-agent given only the property text and a scratch worktree"}
+# clean tree first: find the invocation that passes (some demos take the project root, some nothing)
+sh("cargo build --offline --features client 2>&1 | tail -1", wt)
+if copy: shutil.copy(copy[0], copy[1])
+rc0, out0 = sh(cmd, wt, timeout=600)
+if rc0 != 0 and cmd.startswith("python3") and cmd.endswith(" " + wt):
+    alt = cmd[: -len(wt) - 1]
+    rc0b, out0b = sh(alt, wt, timeout=600)
+    if rc0b == 0:
+        cmd, rc0, out0 = alt, rc0b, out0b
+meta["demo_cmd"] = cmd
+meta["demo_clean_exit"] = rc0
 rc, out = sh("git apply %s" % patch, wt); assert rc == 0, out
 rc, out = sh("cargo build --offline --features client 2>&1 | tail -3", wt); meta["compiles"] = "error" not in out
-rc, out = sh("cargo test --offline 2>&1 | grep 'test result'", wt)
+rc, out = sh("cargo test --offline --lib 2>&1 | grep 'test result'", wt)
+if "42 passed" not in out:      # the two window unit tests race on a shared directory; once more
+    rc, out = sh("cargo test --offline --lib 2>&1 | grep 'test result'", wt)
 meta["baseline_tests_with_change"] = out.strip().splitlines()[:1]
-if copy: shutil.copy(copy[0], copy[1])
 rc1, out1 = sh(cmd, wt, timeout=600)
 meta["demo_with_change_exit"] = rc1
-sh("git checkout -- . ", wt)
-sh("cargo build --offline --features client 2>&1 | tail -1", wt)
-rc0, out0 = sh(cmd, wt, timeout=600)
-meta["demo_clean_exit"] = rc0
 if copy: os.remove(copy[1])
 sh("git checkout -- . && git clean -fdq -e OUT -e target", wt)
+sh("cargo build --offline --features client 2>&1 | tail -1", wt)
 meta["confirmed"] = bool(meta["compiles"] and rc1 != 0 and rc0 == 0 and "42 passed" in " ".join(meta["baseline_tests_with_change"]))
 readme = open(os.path.join(src, "README.md")).read() if os.path.exists(os.path.join(src, "README.md")) else ""
 meta["needs_to_manifest"] = readme[:1500]
